@@ -41,7 +41,7 @@ impl Case {
 
 const EXT: Shape = Shape { allow_null: true, ext_float: true, ext_bytes: true, ext_keys: true, depth: 6, size: 40 };
 
-fn datetime_strategy() -> BoxedStrategy<Val> {
+pub fn datetime_strategy() -> BoxedStrategy<Val> {
     proptest::sample::select(vec![
         "1979-05-27T07:32:00Z",
         "1979-05-27T00:32:00-07:00",
